@@ -130,6 +130,7 @@ var c15Sites = []labelSite{
 }
 
 func c15c(c *Ctx) {
+	c15cChain(c)
 	for _, s := range c15Sites {
 		fn := c.Fn(s.fn)
 		if fn == nil {
@@ -199,6 +200,35 @@ func c15c(c *Ctx) {
 			c.Check(eq, s.fn+"/local-form", c.W.Pos(l.call.Pos()), "':' written exactly when the scope flag is off", fmt.Sprintf("':' form reached under %s, expected %s", got, want))
 		}
 	}
+}
+
+// c15cChain: the scope of a script reaches renderLabel: emitScriptStatement passes
+// (Scope == GLOBAL) of the statement it is emitting to renderChunks, which hands it on.
+func c15cChain(c *Ctx) {
+	es := c.Fn("emitter.Emitter.emitScriptStatement")
+	rc := c.Fn("emitter.Emitter.renderChunks")
+	rl := c.Fn("emitter.chunk.renderLabel")
+	if es == nil || rc == nil || rl == nil {
+		return
+	}
+	ok := false
+	got := ""
+	for _, call := range callsToIn(es, rc) {
+		a := call.Common().Args
+		got = c.term(es, a[3])
+		if got == `($1.Scope == "GLOBAL")` && c.term(es, a[2]) == "$1.Name.Value" {
+			ok = true
+		}
+	}
+	c.Check(ok, "emitScriptStatement/passes-own-scope", c.W.FuncPos(es), "the entry label's scope is the scope of the script being emitted", "emitScriptStatement passes "+got+" as the export flag; expected (scriptStmt.Scope == GLOBAL) of the very script it emits (inline map scripts carry LOCAL)")
+	ok2 := false
+	for _, call := range callsToIn(rc, rl) {
+		a := call.Common().Args
+		if c.term(rc, a[1]) == "$2" && c.term(rc, a[2]) == "$3" {
+			ok2 = true
+		}
+	}
+	c.Check(ok2, "renderChunks/passes-scope-on", c.W.FuncPos(rc), "renderChunks hands script name and export flag to renderLabel", "renderChunks does not pass (scriptName, isGlobal) on to renderLabel")
 }
 
 func sortedPlus(ls []string) []string {
